@@ -379,7 +379,10 @@ func NewReader(r io.Reader, b int) (*Reader, error) {
 func (r *Reader) Read() (f feat.Feature, err error) {
 	line, err := r.r.ReadBytes('\n')
 	if err != nil {
-		return
+		// A final line need not be newline terminated.
+		if err != io.EOF || len(bytes.TrimSpace(line)) == 0 {
+			return nil, err
+		}
 	}
 	r.line++
 	line = bytes.TrimSpace(line)
